@@ -288,6 +288,15 @@ func Build(spec Spec) *Built {
 				pfn := &Func{Pkg: d, Name: "ViaParen", Recv: t, TestOnly: coin(1, 2), PkgOnly: ppo, File: fapi}
 				fapi.Decls = append(fapi.Decls, &Node{Fn: pfn, Doc: fnDoc(pfn), Pre: []*Line{b.tl("func (r (*%T)) ViaParen() {", refT(t, SubRecv))}, Post: []*Line{b.line("}")}})
 				env.ParenM = pfn
+				pan := "PAl" + strings.ToUpper(t.Name[:1]) + t.Name[1:]
+				fapi.Decls = append(fapi.Decls, b.tstmt("type "+pan+" = *%T", free(refT(t, SubOther), TONL)))
+				var qpo *Allow
+				if coin(1, 2) {
+					qpo = b.randAllow(r, allowPool)
+				}
+				qfn := &Func{Pkg: d, Name: "ViaPtrAlias", Recv: t, TestOnly: coin(1, 2), PkgOnly: qpo, File: fapi}
+				fapi.Decls = append(fapi.Decls, &Node{Fn: qfn, Doc: fnDoc(qfn), Pre: []*Line{b.tl("func (r %T) ViaPtrAlias() {", aliasRecv(t, pan))}, Post: []*Line{b.line("}")}})
+				env.PtrAliasM = qfn
 			}
 			if !exportedName(t.Name) && t.Kind == "struct" {
 				// an unexported annotated type that importers reach through an exported alias and an exported container type
@@ -569,7 +578,7 @@ func Build(spec Spec) *Built {
 		if ui == 2 {
 			fa.Rename["m/d0"] = "dzero" // renamed import
 		}
-		var felided *File
+		var felided, fmapkey *File
 		var fdot *File
 		if ui == 1 {
 			// (package u1 therefore declares no function named like a constructor of d0: it would collide with the dot import)
@@ -752,6 +761,17 @@ func Build(spec Spec) *Built {
 				fn, _ := b.FuncNode(u, b.d("elided"), false, nil, felided, []*Node{n, b.stmt("_ = " + x)})
 				fn.Pin = felided.Name
 				felided.Decls = append(felided.Decls, fn)
+			}
+			// a file in which the only use of the type is as the key of a map type
+			if spec.Hostile && exportedName(t.Name) {
+				if fmapkey == nil {
+					fmapkey = b.NewFile(u, "mapkey.go")
+				}
+				mk := b.tstmt("var "+b.d("seen")+" map[*%T]bool", composite(refT(t, SubVar)))
+				mk.Pre[0].Feature = "only-use-is-map-key"
+				mk.PkgLevel = true
+				mk.Pin = fmapkey.Name
+				fmapkey.Decls = append(fmapkey.Decls, mk)
 			}
 			// a file that dot-imports the declaring package: every reference is a bare identifier
 			if fdot != nil && t.Pkg.Path == "m/d0" && exportedName(t.Name) {
